@@ -109,6 +109,14 @@ def normalise(doc, compat, allow_known=False, collide=0):
     out = unify_angles(out, st8, allow_known)
     d['angles_escaped'] = st8[1]
     d['blocks'] = gdoc.fix_blocks(out)
+    # a paragraph that consists of nothing but bracket pairs (`[text][ref]`, `[ref][]`, `[ref]`) right after a table is, by the caption syntax, the
+    # caption of that table, and by the paragraph syntax a paragraph with a reference link: the documentation does not say which; kept apart
+    sep_ = []
+    for b_ in d['blocks']:
+        if sep_ and sep_[-1][0] == 'table' and b_[0] == 'para' and b_[1] and all(x[0] == 'reflink' for x in b_[1][0]):
+            sep_.append(['hr', '* * *'])
+        sep_.append(b_)
+    d['blocks'] = sep_
     # the project's own expectation (Glossaries.htmlc) pins that a code block ending a source WITHOUT final newline is rendered without
     # the line ending inside <pre>; the syntax guide only shows terminated sources, so generated sources end with a newline
     d['final_nl'] = True
